@@ -27,6 +27,7 @@ C01 short-private-key-in-stored-identity-panics.json 4962988
 C03 d2-frame-replay-after-newer.json 29d39e0
 C03 d2-handler-replay-after-newer.json 29d39e0
 C03 d2-linkframe-replay-after-newer.json 29d39e0
+C04 d23-keys-lost-during-link-setup-nil-key-panic.json eecb382
 C05 d10-tiny-link-frame-panics-reader.json 622fc18
 C05 d21-unauthenticated-frame-near-wrap-rolls-the-in-key.json 76f39b8
 C06 d3-udp-service-opens-tcp.json aa5d824
